@@ -150,11 +150,16 @@ package hotspot
 //@ ghost var gHotBatch (Array Int Int)
 //@ ghost var gHotRes (Array Int Int)
 //@ ghost var gHotBlocked (Array Int Bool)
+// the wait each check asked for and the ghost total of nanoseconds slept (slept_ns) at the moment of each check
+//@ ghost var gHotWait (Array Int Int)
+//@ ghost var gHotSlept (Array Int Int)
+//@ spec func waitOf(r) = (r != nil && r.status == base.ResultStatusShouldWait && r.nanosToWait > 0) ? r.nanosToWait : 0
 //@ iface TrafficShapingController.PerformChecking(arg, batchCount) r
 //@   ensures gHotN == old(gHotN) + 1 && gHotRecv == upd(old(gHotRecv), old(gHotN), dynptr(this)) && gHotArg == upd(old(gHotArg), old(gHotN), arg) && gHotBatch == upd(old(gHotBatch), old(gHotN), batchCount)
 //@   ensures gHotRes == upd(old(gHotRes), old(gHotN), r) && gHotBlocked == upd(old(gHotBlocked), old(gHotN), blocked(r))
+//@   ensures gHotWait == upd(old(gHotWait), old(gHotN), waitOf(r)) && gHotSlept == upd(old(gHotSlept), old(gHotN), slept_ns)
 //@   ensures r != nil ==> fresh(r)
-//@   modifies gHotN, gHotRecv, gHotArg, gHotBatch, gHotRes, gHotBlocked, gCache, cells(int64)
+//@   modifies gHotN, gHotRecv, gHotArg, gHotBatch, gHotRes, gHotBlocked, gHotWait, gHotSlept, gCache, cells(int64)
 
 //@ func (s *Slot) Check(ctx) r
 //@   props C05
@@ -167,10 +172,64 @@ package hotspot
 //@   ensures[first-block] blocked(r) ==> gHotN > n0 && r == sel(gHotRes, gHotN - 1) && sel(gHotBlocked, gHotN - 1)
 //@   ensures[none-earlier] forall j Int :: n0 <= j && j < gHotN - (blocked(r) ? 1 : 0) ==> !sel(gHotBlocked, j)
 //@   ensures[pass-unchanged] !blocked(r) ==> r == old(ctx.RuleCheckResult)
+//@   ensures[sleeps-exactly-the-wait] forall j Int :: n0 <= j && j < gHotN ==> (j + 1 < gHotN ? sel(gHotSlept, j + 1) : slept_ns) == sel(gHotSlept, j) + sel(gHotWait, j)
+//@   ensures[no-other-sleep] (gHotN == n0 ==> slept_ns == old(slept_ns)) && (gHotN > n0 ==> sel(gHotSlept, n0) == old(slept_ns))
 //@   loop 1:
 //@     invariant[count] n0 <= gHotN && gHotN <= n0 + #i
+//@     invariant[slept] forall j Int :: n0 <= j && j < gHotN ==> (j + 1 < gHotN ? sel(gHotSlept, j + 1) : slept_ns) == sel(gHotSlept, j) + sel(gHotWait, j)
+//@     invariant[slept-first] (gHotN == n0 ==> slept_ns == old(slept_ns)) && (gHotN > n0 ==> sel(gHotSlept, n0) == old(slept_ns))
 //@     invariant[no-block-yet] forall j Int :: n0 <= j && j < gHotN ==> !sel(gHotBlocked, j) && sel(gHotArg, j) != nil && sel(gHotBatch, j) == ctx.Input.BatchCount
 //@     invariant[skipped-without-argument] (forall k Int :: 0 <= k && k < #i ==> tcs[k].ExtractArgs(ctx) == nil) ==> gHotN == n0
+
+// ---- C14: which old controller is kept for a reloaded rule (reflect.DeepEqual on the specific items: uninterpreted, reflexive)
+//@ spec func itemsEq(a, b) = (len(a.SpecificItems) == 0 && len(b.SpecificItems) == 0) || deepequal(asiface(a.SpecificItems), asiface(b.SpecificItems))
+//@ spec func baseEq(a, b) = a.Resource == b.Resource && a.MetricType == b.MetricType && a.ControlBehavior == b.ControlBehavior && a.ParamsMaxCapacity == b.ParamsMaxCapacity && a.ParamIndex == b.ParamIndex && a.ParamKey == b.ParamKey && a.Threshold == b.Threshold && a.DurationInSec == b.DurationInSec && itemsEq(a, b)
+//@ spec func eqRule(a, b) = baseEq(a, b) && ((a.ControlBehavior == Reject && a.BurstCount == b.BurstCount) || (a.ControlBehavior == Throttling && a.MaxQueueingTimeMs == b.MaxQueueingTimeMs))
+//@ spec func statReusable(a, b) = a.Resource == b.Resource && a.ControlBehavior == b.ControlBehavior && a.ParamsMaxCapacity == b.ParamsMaxCapacity && a.DurationInSec == b.DurationInSec && a.MetricType == b.MetricType
+
+//@ func (r *Rule) Equals(newRule) res
+//@   props C14
+//@   requires r != nil && newRule != nil
+//@   ensures[def] res <==> eqRule(r, newRule)
+//@   ensures[a-rule-without-specific-items-equals-its-reloaded-copy] len(r.SpecificItems) == 0 && len(newRule.SpecificItems) == 0 && r.Resource == newRule.Resource && r.MetricType == newRule.MetricType && r.ControlBehavior == newRule.ControlBehavior && r.ParamsMaxCapacity == newRule.ParamsMaxCapacity && r.ParamIndex == newRule.ParamIndex && r.ParamKey == newRule.ParamKey && r.Threshold == newRule.Threshold && r.DurationInSec == newRule.DurationInSec && r.BurstCount == newRule.BurstCount && r.MaxQueueingTimeMs == newRule.MaxQueueingTimeMs && (r.ControlBehavior == Reject || r.ControlBehavior == Throttling) ==> res
+//@   modifies nothing
+
+//@ func (r *Rule) IsStatReusable(newRule) res
+//@   props C14
+//@   requires r != nil && newRule != nil
+//@   ensures[def] res <==> statReusable(r, newRule)
+//@   modifies nothing
+
+// equalIdx is the first old controller whose rule equals r (else -1); reuseStatIdx the first statistic-compatible one before it (else -1)
+//@ func calculateReuseIndexFor(r, oldResTcs) (equalIdx, reuseStatIdx)
+//@   props C14
+//@   requires r != nil && (forall j Int :: 0 <= j && j < len(oldResTcs) ==> oldResTcs[j] != nil && oldResTcs[j].BoundRule() != nil)
+//@   let n = len(oldResTcs)
+//@   ensures[ranges] 0 - 1 <= equalIdx && equalIdx < n && 0 - 1 <= reuseStatIdx && reuseStatIdx < n
+//@   ensures[first-equal] equalIdx >= 0 ==> eqRule(oldResTcs[equalIdx].BoundRule(), r) && (forall j Int :: 0 <= j && j < equalIdx ==> !eqRule(oldResTcs[j].BoundRule(), r))
+//@   ensures[none-equal] equalIdx < 0 ==> (forall j Int :: 0 <= j && j < n ==> !eqRule(oldResTcs[j].BoundRule(), r))
+//@   ensures[first-stat-reusable] reuseStatIdx >= 0 ==> statReusable(oldResTcs[reuseStatIdx].BoundRule(), r) && (forall j Int :: 0 <= j && j < reuseStatIdx ==> !statReusable(oldResTcs[j].BoundRule(), r))
+//@   modifies nothing
+//@   loop 1:
+//@     invariant[no-equal-yet] equalIdx == 0 - 1 && (forall j Int :: 0 <= j && j < #i ==> !eqRule(oldResTcs[j].BoundRule(), r))
+//@     invariant[stat-idx] 0 - 1 <= reuseStatIdx && reuseStatIdx < #i && (reuseStatIdx >= 0 ==> statReusable(oldResTcs[reuseStatIdx].BoundRule(), r) && (forall j Int :: 0 <= j && j < reuseStatIdx ==> !statReusable(oldResTcs[j].BoundRule(), r)))
+//@     invariant[no-stat-yet] reuseStatIdx < 0 ==> (forall j Int :: 0 <= j && j < #i ==> !statReusable(oldResTcs[j].BoundRule(), r))
+
+// the metric handed to a new / modified rule never comes from a controller that an unchanged rule further down the
+// list is going to keep; among the others it is the first statistic-compatible one
+//@ func statReuseIndexFor(r, oldResTcs, laterRules) idx
+//@   props C14
+//@   requires r != nil && (forall j Int :: 0 <= j && j < len(oldResTcs) ==> oldResTcs[j] != nil && oldResTcs[j].BoundRule() != nil) && (forall k Int :: 0 <= k && k < len(laterRules) ==> laterRules[k] != nil)
+//@   let n = len(oldResTcs)
+//@   ensures[range] 0 - 1 <= idx && idx < n
+//@   ensures[stat-compatible] idx >= 0 ==> statReusable(oldResTcs[idx].BoundRule(), r)
+//@   ensures[never-a-controller-kept-by-a-later-rule] idx >= 0 ==> (forall k Int :: 0 <= k && k < len(laterRules) ==> !eqRule(oldResTcs[idx].BoundRule(), laterRules[k]))
+//@   ensures[first-such] forall j Int :: 0 <= j && j < (idx >= 0 ? idx : n) && statReusable(oldResTcs[j].BoundRule(), r) ==> (exists k Int :: 0 <= k && k < len(laterRules) && eqRule(oldResTcs[j].BoundRule(), laterRules[k]))
+//@   modifies nothing
+//@   loop 1:
+//@     invariant[skipped-are-incompatible-or-kept] forall j Int :: 0 <= j && j < #i && statReusable(oldResTcs[j].BoundRule(), r) ==> (exists k Int :: 0 <= k && k < len(laterRules) && eqRule(oldResTcs[j].BoundRule(), laterRules[k]))
+//@   loop 2:
+//@     invariant[not-kept-so-far] !kept && (forall k Int :: 0 <= k && k < #i ==> !eqRule(oldRule, laterRules[k]))
 
 // ---- C13: whole-set load. The grouping loop must cope with any element, including nil; the rebuild itself
 // (onRuleUpdate) is under a separate contract.
